@@ -102,3 +102,69 @@ Theorem digest_stable_iff :
     (digest (etree_escape EscCanonText s') = digest (etree_escape EscCanonText s) <-> s' = s).
 Proof. exact XmlTextProofs.digest_stable_iff. Qed.
 Print Assumptions digest_stable_iff.
+
+(* ------------------------------------------------------------------------- *)
+(* The models compose.  The response record the IdP model emits, rendered as an
+   XML tree by schema.go's Element() builders (IdPSP.render_response: instants
+   through format_relaxed, each signature record as a ds:Signature over the
+   rendered element, an encrypted assertion as an EncryptedAssertion that opens
+   exactly under the recipient's key), is accepted by the REAL SP model
+   SPModel.parse_xml_response — unmarshalling, goxmldsig validation of the
+   Response signature against the certificate published in the IdP metadata,
+   Destination / InResponseTo / issuer / status / all time windows / audience —
+   configured from the IdP's metadata and the SP's own registration, and the SP
+   returns the session's name identifier and exactly the attribute values the
+   IdP made, in order.  For every configuration, certificate parser, routing,
+   request, session, random streams, with and without encryption; instants are
+   milliseconds (they pass through text), the request is not ahead of the clock
+   by more than MaxClockSkew, the request is outstanding or IdP-initiated
+   responses are allowed, the SP holds the key it advertised.  Both signatures
+   (Response and Assertion) are shown valid for the SP. *)
+From Saml Require Import SPModel IdPSP IdPSPProofs.
+
+Theorem C07_roundtrip_sp_model :
+  forall cfg cp rt rq s now addr relay rnd ids cur spkey allow action resp rl,
+    0 <= IdPModel.max_issue_delay cfg -> 0 <= IdPModel.max_clock_skew cfg ->
+    ms_aligned (IdPModel.max_issue_delay cfg) -> ms_aligned (IdPModel.max_clock_skew cfg) ->
+    ms_aligned now -> ms_aligned (rq_issue rq) ->
+    rq_issue rq - IdPModel.max_clock_skew cfg <= now ->
+    zero_time <= now - IdPModel.max_clock_skew cfg -> zero_time <= rq_issue rq ->
+    now + IdPModel.max_issue_delay cfg < year10000 -> rq_issue rq + IdPModel.max_issue_delay cfg < year10000 ->
+    0 <= signer_key cfg ->
+    (allow = true \/ In (rq_id rq) ids) ->
+    (forall k, enc_decision cp (kds (rt_desc rt)) = EncryptTo k -> spkey = Some k) ->
+    respond cfg cp rt rq s now now addr relay rnd = Ok (action, resp, rl) ->
+    let a := fst (make_assertion cfg rt rq s now now addr (rnd_saml rnd)) in
+    let spc := sp_cfg_of cfg (ep_location (rt_ep rt)) (md_entity (rt_md rt)) allow in
+    parse_xml_response spc ids now cur (DRoot (render_response spkey resp)) = Ok (abs_assertion a) /\
+    validate_signature spc (render_response spkey resp) = SValid /\
+    validate_signature spc (let '(a0, s0) := inner_assertion resp in render_assertion a0 s0) = SValid /\
+    SPModel.a_nameid (abs_assertion a) = ss_nameid s /\
+    a_attrvals (abs_assertion a) = flat_map (fun x => map av_value (at_values x)) (a_attributes a) /\
+    SPModel.a_id (abs_assertion a) = IdPModel.a_id a.
+Proof. exact roundtrip_sp_model. Qed.
+Print Assumptions C07_roundtrip_sp_model.
+
+(* End to end through three models: the SP's published metadata registered at the
+   IdP, the SP's own request validated by IdPModel.validate (C05), the response
+   made for a session (C06), accepted by SPModel (C01-C04) with the session's
+   NameID and attribute values. *)
+Theorem C07_roundtrip_end_to_end :
+  forall cfg cp reg (sp : IdPModel.spcfg) cert id dest s now addr relay rnd ids cur spkey allow rt action resp rl,
+    0 <= IdPModel.max_issue_delay cfg -> 0 <= IdPModel.max_clock_skew cfg ->
+    ms_aligned (IdPModel.max_issue_delay cfg) -> ms_aligned (IdPModel.max_clock_skew cfg) -> ms_aligned now ->
+    zero_time <= now - IdPModel.max_clock_skew cfg -> now + IdPModel.max_issue_delay cfg < year10000 ->
+    0 <= signer_key cfg ->
+    (allow = true \/ In id ids) ->
+    reg (IdPModel.sp_entity sp) = Found (sp_metadata sp cert) ->
+    (forall k, enc_decision cp (kds (rt_desc rt)) = EncryptTo k -> spkey = Some k) ->
+    validate cfg reg now (sp_request sp id now dest) = Ok rt ->
+    respond cfg cp rt (sp_request sp id now dest) s now now addr relay rnd = Ok (action, resp, rl) ->
+    exists a',
+      parse_xml_response (sp_cfg_of cfg (sp_acs sp) (IdPModel.sp_entity sp) allow) ids now cur
+                         (DRoot (render_response spkey resp)) = Ok a' /\
+      SPModel.a_nameid a' = ss_nameid s /\
+      a_attrvals a' = flat_map (fun x => map av_value (at_values x))
+                               (session_attributes (choose_attr_service (attr_services (rt_desc rt))) s).
+Proof. exact roundtrip_end_to_end. Qed.
+Print Assumptions C07_roundtrip_end_to_end.
